@@ -1,8 +1,10 @@
 /-
-C10 helper lemmas for expression pipelines (Async/Rx.lean): an invariant `RInv s m` — exactly the
+C10 helper lemmas for expression pipelines (Async/Rx.lean): an invariant `RInv nf s m` — exactly the
 evaluations `≥ m` have not started, their start entries sit in the ready queue in order (FIFO), the
-current task is evaluation `m - 1`, and once that one has finished the expression holds its result —
-preserved by every event and every step of the ready queue.
+current task is evaluation `m - 1`, what the expression holds is the completed result of the
+awaitable `holder`, and the newest started evaluation has stored every result it has got past —
+preserved by every event and every step of the ready queue (`RMid`: the same while one task is inside
+`_resolve_async`'s loop).  `holder` never goes back (`HLe`).
 -/
 import ParamVerif.Async.Rx
 
@@ -11,7 +13,7 @@ namespace ParamVerif.Async.Rx
 /-- the start entries still in the queue, in queue order -/
 def starts (s : St) : List Nat := s.ready.filter fun t => s.pcs t == some .start
 
-structure RInv (s : St) (m : Nat) : Prop where
+structure RInv (nf : Nat) (s : St) (m : Nat) : Prop where
   pos : 0 < s.nTasks
   mle : m ≤ s.nTasks
   pcs_none : ∀ t, s.nTasks ≤ t → s.pcs t = none
@@ -21,17 +23,43 @@ structure RInv (s : St) (m : Nat) : Prop where
   started : ∀ t, t < s.nTasks → (s.pcs t = some .start ↔ m ≤ t)
   queue : starts s = List.range' m (s.nTasks - m)
   current : s.currentTask = if m = 0 then none else some (m - 1)
-  fresh : ∀ t, s.pcs t = some .start ∨ s.pcs t = none → ∀ w, s.futs t = .pending w → w = none
-  waiting : ∀ t, s.pcs t = some .awaiting → s.futs t = .pending (some t) ∨ (∃ v, s.futs t = .done v) ∧ t ∈ s.ready
-  waiter : ∀ t u, s.futs t = .pending (some u) → u = t ∧ s.pcs t = some .awaiting
-  fin : ∀ t, s.pcs t = some .finished → ∃ v, s.futs t = .done v
-  value : 0 < m → s.pcs (m - 1) = some .finished → ∃ v, s.futs (m - 1) = .done v ∧ s.cur = some v
-  /-- the expression holds the result of the evaluation `holder`, which has started -/
-  held : ∀ t, s.holder = some t → t < m ∧ ∃ v, s.futs t = .done v ∧ s.cur = some v
+  waiter : ∀ t k u, s.futs (t, k) = .pending (some u) → u = t ∧ s.pcs t = some (.awaiting k)
+  waiting : ∀ t k, s.pcs t = some (.awaiting k) → k < nf ∧
+      (s.futs (t, k) = .pending (some t) ∨ (∃ v, s.futs (t, k) = .done v) ∧ t ∈ s.ready)
+  /-- the expression holds the result of the awaitable `holder`, of an evaluation that has started -/
+  held : ∀ t k, s.holder = some (t, k) → t < m ∧ ∃ v, s.futs (t, k) = .done v ∧ s.cur = some v
   unheld : s.holder = none → s.cur = none
-  last_holder : 0 < m → s.pcs (m - 1) = some .finished → s.holder = some (m - 1)
+  /-- the newest started evaluation has stored every result it has got past -/
+  prog : 0 < m → ∀ k, s.pcs (m - 1) = some (.awaiting k) → 0 < k → s.holder = some (m - 1, k - 1)
+  value : 0 < m → s.pcs (m - 1) = some .finished → 0 < nf → s.holder = some (m - 1, nf - 1)
+  /-- a suspended evaluation has only stored results of awaitables it is past -/
+  hold_lt : ∀ t j k, s.holder = some (t, j) → s.pcs t = some (.awaiting k) → j < k
 
-theorem rinv_init : RInv St.init 0 := by
+/-- the same while task `t` is inside the loop of `_resolve_async`, about to await its `k`-th
+awaitable (its `pcs` entry is stale) -/
+structure RMid (nf : Nat) (s : St) (m t k : Nat) : Prop where
+  pos : 0 < s.nTasks
+  mle : m ≤ s.nTasks
+  tlt : t < m
+  kle : k ≤ nf
+  pcs_none : ∀ u, s.nTasks ≤ u → s.pcs u = none
+  pcs_some : ∀ u, u < s.nTasks → s.pcs u ≠ none
+  ready_lt : ∀ u, u ∈ s.ready → u < s.nTasks
+  started : ∀ u, u < s.nTasks → u ≠ t → (s.pcs u = some .start ↔ m ≤ u)
+  queue : (s.ready.filter fun u => s.pcs u == some .start).filter (fun u => u != t) = List.range' m (s.nTasks - m)
+  current : s.currentTask = some (m - 1)
+  waiter : ∀ u j w, s.futs (u, j) = .pending (some w) → w = u ∧ u ≠ t ∧ s.pcs u = some (.awaiting j)
+  waiting : ∀ u j, u ≠ t → s.pcs u = some (.awaiting j) → j < nf ∧
+      (s.futs (u, j) = .pending (some u) ∨ (∃ v, s.futs (u, j) = .done v) ∧ u ∈ s.ready)
+  held : ∀ u j, s.holder = some (u, j) → u < m ∧ ∃ v, s.futs (u, j) = .done v ∧ s.cur = some v
+  unheld : s.holder = none → s.cur = none
+  prog : m - 1 ≠ t → ∀ j, s.pcs (m - 1) = some (.awaiting j) → 0 < j → s.holder = some (m - 1, j - 1)
+  value : m - 1 ≠ t → s.pcs (m - 1) = some .finished → 0 < nf → s.holder = some (m - 1, nf - 1)
+  runprog : t = m - 1 → 0 < k → s.holder = some (t, k - 1)
+  hold_lt : ∀ u j i, u ≠ t → s.holder = some (u, j) → s.pcs u = some (.awaiting i) → j < i
+  runlt : ∀ j, s.holder = some (t, j) → j < k
+
+theorem rinv_init (nf : Nat) : RInv nf St.init 0 := by
   constructor <;> simp [St.init, spawn, starts, upd]
   intro t ht e; omega
 
@@ -49,12 +77,178 @@ theorem filter_ne_range' (a k t : Nat) (h : t < a) : (List.range' a k).filter (f
   have := (List.mem_range'_1.1 hu).1
   simp; omega
 
+macro "rgr" : tactic => `(tactic| grind (splits := 12) [upd])
 
-macro "rgr" : tactic => `(tactic| grind (splits := 12) [upd, apply])
+/-! ### the loop of `_resolve_async` -/
 
-theorem rinv_set (s : St) (m : Nat) (r : Int) (h : RInv s m) : RInv (applyEvent s (.set r)) m := by
+/-- the task leaves the loop: its last step is over -/
+theorem rmid_finish (nf : Nat) (s : St) (m t k : Nat) (h : RMid nf s m t k)
+    (hv : t = m - 1 → k = nf) : RInv nf { s with pcs := upd s.pcs t (some .finished) } m :=
+  have htn : t < s.nTasks := Nat.lt_of_lt_of_le h.tlt h.mle
+  { pos := h.pos, mle := h.mle
+    pcs_none := by have := h.pcs_none; simp only []; rgr
+    pcs_some := by have := h.pcs_some; simp only []; rgr
+    ready_lt := h.ready_lt
+    started := by
+      have hst := h.started; have := h.tlt; simp only []
+      intro u hu
+      by_cases e : u = t
+      · subst e; simp [upd]; omega
+      · simp [upd, e]; exact hst u hu e
+    queue := by
+      simp only [starts]
+      rw [filter_upd _ _ _ (by simp)]
+      exact h.queue
+    current := by have := h.current; have := h.tlt; simp only []; rgr
+    waiter := by have := h.waiter; simp only []; rgr
+    waiting := by have := h.waiting; simp only []; rgr
+    held := h.held, unheld := h.unheld
+    prog := by have := h.prog; simp only []; rgr
+    value := by
+      have hrp := h.runprog; have := h.tlt; simp only []
+      intro hm hp hn
+      by_cases e : m - 1 = t
+      · have hk := hv e.symm
+        rw [e]; rw [← hk]; exact hrp e.symm (by omega)
+      · exact h.value e (by simpa [upd, e] using hp) hn
+    hold_lt := by
+      have := h.hold_lt; simp only []
+      intro u j i hh hp
+      by_cases e : u = t
+      · subst e; simp [upd] at hp
+      · exact this u j i e hh (by simpa [upd, e] using hp) }
+
+/-- the task suspends on its `k`-th awaitable -/
+theorem rmid_suspend (nf : Nat) (s : St) (m t k : Nat) (h : RMid nf s m t k) (hk : k < nf)
+    (hf : s.futs (t, k) = .pending none) :
+    RInv nf { s with pcs := upd s.pcs t (some (.awaiting k)), futs := upd s.futs (t, k) (.pending (some t)) } m :=
+  have htn : t < s.nTasks := Nat.lt_of_lt_of_le h.tlt h.mle
+  { pos := h.pos, mle := h.mle
+    pcs_none := by have := h.pcs_none; simp only []; rgr
+    pcs_some := by have := h.pcs_some; simp only []; rgr
+    ready_lt := h.ready_lt
+    started := by
+      have hst := h.started; have := h.tlt; simp only []
+      intro u hu
+      by_cases e : u = t
+      · subst e; simp [upd]; omega
+      · simp [upd, e]; exact hst u hu e
+    queue := by
+      simp only [starts]
+      rw [filter_upd _ _ _ (by simp)]
+      exact h.queue
+    current := by have := h.current; have := h.tlt; simp only []; rgr
+    waiter := by
+      have := h.waiter; simp only []
+      intro u j w hw
+      by_cases e : (u, j) = (t, k)
+      · cases e; simp [upd] at hw ⊢; exact hw.symm
+      · have e' : ¬ ((u, j) = (t, k)) := e
+        simp only [upd, e', if_false] at hw
+        have := this u j w hw
+        refine ⟨this.1, ?_⟩
+        simp [upd, this.2.1, this.2.2]
+    waiting := by
+      have := h.waiting; simp only []
+      intro u j hp
+      by_cases e : u = t
+      · subst e
+        simp [upd] at hp; subst hp
+        exact ⟨hk, Or.inl (by simp [upd])⟩
+      · simp only [upd, e, if_false] at hp
+        have h1 := this u j e hp
+        refine ⟨h1.1, ?_⟩
+        have e' : ¬ ((u, j) = (t, k)) := by intro e2; cases e2; exact e rfl
+        simp only [upd, e', if_false]
+        exact h1.2
+    held := by
+      have := h.held; simp only []
+      intro u j hh
+      obtain ⟨a, v, b, c⟩ := this u j hh
+      refine ⟨a, v, ?_, c⟩
+      have e' : ¬ ((u, j) = (t, k)) := by intro e2; cases e2; rw [hf] at b; cases b
+      simp only [upd, e', if_false]; exact b
+    unheld := h.unheld
+    prog := by
+      have := h.prog; have := h.runprog; simp only []
+      intro hm j hp hj
+      by_cases e : m - 1 = t
+      · rw [e] at hp ⊢
+        simp [upd] at hp; subst hp
+        exact h.runprog e.symm hj
+      · exact h.prog e j (by simpa [upd, e] using hp) hj
+    value := by
+      have := h.value; simp only []
+      intro hm hp hn
+      by_cases e : m - 1 = t
+      · rw [e] at hp; simp [upd] at hp
+      · exact h.value e (by simpa [upd, e] using hp) hn
+    hold_lt := by
+      have := h.hold_lt; simp only []
+      intro u j i hh hp
+      by_cases e : u = t
+      · subst e; simp [upd] at hp; subst hp; exact h.runlt j hh
+      · exact this u j i e hh (by simpa [upd, e] using hp) }
+
+theorem rinv_loop (nf t m : Nat) : ∀ (r : Nat) (s : St), r ≤ nf → RMid nf s m t (nf - r) → RInv nf (rxLoop t nf r s) m := by
+  intro r
+  induction r with
+  | zero =>
+    intro s _ h
+    exact rmid_finish nf s m t _ h (fun _ => by omega)
+  | succ r ih =>
+    intro s hr h
+    simp only [rxLoop]
+    cases hf : s.futs (t, nf - (r + 1)) with
+    | done v =>
+      simp only []
+      split
+      · rename_i hc
+        have htm : t = m - 1 := by have := h.current; rw [this] at hc; cases hc; rfl
+        apply ih _ (by omega)
+        have hk : nf - r = nf - (r + 1) + 1 := by omega
+        exact
+        { pos := h.pos, mle := h.mle, tlt := h.tlt, kle := by omega
+          pcs_none := h.pcs_none, pcs_some := h.pcs_some, ready_lt := h.ready_lt, started := h.started
+          queue := h.queue, current := h.current, waiter := h.waiter, waiting := h.waiting
+          held := by
+            simp only []
+            intro u j hh
+            cases hh
+            exact ⟨h.tlt, v, hf, rfl⟩
+          unheld := by simp
+          prog := fun e => absurd htm.symm e
+          value := fun e => absurd htm.symm e
+          runprog := by
+            intro _ _
+            simp only []
+            rw [hk]; simp
+          hold_lt := by
+            simp only []
+            intro u j i hne hh hp
+            cases hh; exact absurd rfl hne
+          runlt := by
+            simp only []
+            intro j hh
+            cases hh; omega }
+      · rename_i hc
+        refine rmid_finish nf s m t _ h ?_
+        intro e
+        exact absurd (by rw [h.current, e]) hc
+    | pending w =>
+      simp only []
+      have hw : w = none := by
+        cases w with
+        | none => rfl
+        | some u => exact absurd rfl (h.waiter t _ u hf).2.1
+      subst hw
+      exact rmid_suspend nf s m t _ h (by omega) hf
+
+/-! ### events -/
+
+theorem rinv_set (nf : Nat) (s : St) (m : Nat) (h : RInv nf s m) : RInv nf (applyEvent nf s .set) m := by
   have hmle := h.mle
-  have hq : starts (applyEvent s (.set r)) = List.range' m (s.nTasks + 1 - m) := by
+  have hq : starts (applyEvent nf s .set) = List.range' m (s.nTasks + 1 - m) := by
     simp only [starts, applyEvent, spawn]
     rw [List.filter_append]
     have h1 : List.filter (fun t => upd s.pcs s.nTasks (some Pc.start) t == some Pc.start) s.ready = starts s := by
@@ -78,82 +272,124 @@ theorem rinv_set (s : St) (m : Nat) (r : Int) (h : RInv s m) : RInv (applyEvent 
     started := by have := h.started; simp only [applyEvent, spawn]; rgr
     queue := by rw [hq]; simp [applyEvent, spawn]
     current := by have := h.current; simp only [applyEvent, spawn]; rgr
-    fresh := by have := h.fresh; have := h.pcs_none; have := h.waiter; simp only [applyEvent, spawn]; rgr
-    waiting := by have := h.waiting; have := h.pcs_none; simp only [applyEvent, spawn]; rgr
     waiter := by have := h.waiter; have := h.pcs_none; simp only [applyEvent, spawn]; rgr
-    fin := by have := h.fin; have := h.pcs_none; simp only [applyEvent, spawn]; rgr
+    waiting := by have := h.waiting; have := h.pcs_none; simp only [applyEvent, spawn]; rgr
+    held := by have := h.held; simp only [applyEvent, spawn]; rgr
+    unheld := by have := h.unheld; simp only [applyEvent, spawn]; rgr
+    prog := by have := h.prog; have := h.started; simp only [applyEvent, spawn]; rgr
     value := by have := h.value; have := h.started; simp only [applyEvent, spawn]; rgr
-    held := by have := h.held; have := h.current; have := h.started; simp only [applyEvent, spawn]; rgr
-    unheld := by have := h.unheld; have := h.current; simp only [applyEvent, spawn]; rgr
-    last_holder := by have := h.last_holder; have := h.current; have := h.started; simp only [applyEvent, spawn]; rgr }
+    hold_lt := by have := h.hold_lt; have := h.held; have := h.pcs_none; simp only [applyEvent, spawn]; rgr }
 
-
-theorem starts_congr (s s' : St) (h1 : s'.ready = s.ready) (h2 : s'.pcs = s.pcs) : starts s' = starts s := by
-  simp [starts, h1, h2]
-
-theorem rinv_complete (s : St) (m : Nat) (t : Nat) (r : Int) (h : RInv s m) : RInv (applyEvent s (.complete t r)) m := by
+theorem rinv_complete (nf : Nat) (s : St) (m t k : Nat) (r : Int) (h : RInv nf s m) :
+    RInv nf (applyEvent nf s (.complete t k r)) m := by
   simp only [applyEvent]
   split
   · rename_i w hw
+    have hdone : ∀ (rd : List Nat), (∀ u, u ∈ s.ready → u ∈ rd) → (w = some t → t ∈ rd) →
+        (rd.filter fun u => s.pcs u == some .start) = List.range' m (s.nTasks - m) →
+        (∀ u, u ∈ rd → u < s.nTasks) →
+        RInv nf { s with futs := upd s.futs (t, k) (.done r), ready := rd } m := by
+      intro rd hsub hin hq hlt
+      exact
+      { pos := h.pos, mle := h.mle, pcs_none := h.pcs_none, pcs_some := h.pcs_some
+        ready_lt := hlt, started := h.started, queue := hq, current := h.current
+        waiter := by
+          have := h.waiter; simp only []
+          intro u j x hx
+          by_cases e : (u, j) = (t, k)
+          · cases e; simp [upd] at hx
+          · have e' : ¬ ((u, j) = (t, k)) := e
+            simp only [upd, e', if_false] at hx; exact this u j x hx
+        waiting := by
+          have hwt := h.waiting; have hwr := h.waiter; simp only []
+          intro u j hp
+          obtain ⟨a, b⟩ := hwt u j hp
+          refine ⟨a, ?_⟩
+          by_cases e : (u, j) = (t, k)
+          · cases e
+            right
+            refine ⟨⟨r, by simp [upd]⟩, hin ?_⟩
+            rcases b with b | ⟨⟨v, b⟩, _⟩
+            · rw [hw] at b; cases b; rfl
+            · rw [hw] at b; cases b
+          · have e' : ¬ ((u, j) = (t, k)) := e
+            simp only [upd, e', if_false]
+            rcases b with b | ⟨b, c⟩
+            · exact Or.inl b
+            · exact Or.inr ⟨b, hsub u c⟩
+        held := by
+          have := h.held; simp only []
+          intro u j hh
+          obtain ⟨a, v, b, c⟩ := this u j hh
+          refine ⟨a, v, ?_, c⟩
+          have e' : ¬ ((u, j) = (t, k)) := by intro e2; cases e2; rw [hw] at b; cases b
+          simp only [upd, e', if_false]; exact b
+        unheld := h.unheld, prog := h.prog, value := h.value, hold_lt := h.hold_lt }
     cases w with
     | none =>
       simp only []
-      exact
-      { pos := h.pos, mle := h.mle, pcs_none := h.pcs_none, pcs_some := h.pcs_some, ready_lt := h.ready_lt
-        started := h.started, queue := h.queue, current := h.current
-        fresh := by have := h.fresh; simp only []; rgr
-        waiting := by have := h.waiting; have := h.waiter; simp only []; rgr
-        waiter := by have := h.waiter; simp only []; rgr
-        fin := by have := h.fin; simp only []; rgr
-        value := by have := h.value; simp only []; rgr
-        held := by have := h.held; have := h.current; have := h.started; simp only [applyEvent, spawn]; rgr
-        unheld := by have := h.unheld; have := h.current; simp only [applyEvent, spawn]; rgr
-        last_holder := by have := h.last_holder; have := h.current; have := h.started; simp only [applyEvent, spawn]; rgr }
+      exact hdone s.ready (fun _ hu => hu) (by intro e; cases e) h.queue h.ready_lt
     | some u =>
-      have hu := h.waiter t u hw
+      have hu := h.waiter t k u hw
       obtain ⟨rfl, hpc⟩ := hu
-      have hlt : u < s.nTasks := by
-        apply Decidable.byContradiction
-        intro hn
-        have := h.pcs_none u (by omega)
-        rw [this] at hpc; cases hpc
-      have hq : starts { s with futs := upd s.futs u (.done r), ready := s.ready ++ [u] } = starts s := by
-        simp [starts, List.filter_append, hpc]
       simp only []
-      exact
-      { pos := h.pos, mle := h.mle, pcs_none := h.pcs_none, pcs_some := h.pcs_some
-        ready_lt := by have := h.ready_lt; simp only []; rgr
-        started := h.started
-        queue := by rw [hq]; exact h.queue
-        current := h.current
-        fresh := by have := h.fresh; simp only []; rgr
-        waiting := by have := h.waiting; have := h.waiter; simp only []; rgr
-        waiter := by have := h.waiter; simp only []; rgr
-        fin := by have := h.fin; simp only []; rgr
-        value := by have := h.value; simp only []; rgr
-        held := by have := h.held; have := h.current; have := h.started; simp only [applyEvent, spawn]; rgr
-        unheld := by have := h.unheld; have := h.current; simp only [applyEvent, spawn]; rgr
-        last_holder := by have := h.last_holder; have := h.current; have := h.started; simp only [applyEvent, spawn]; rgr }
+      refine hdone (s.ready ++ [u]) (fun _ hx => List.mem_append_left _ hx) (fun _ => by simp) ?_ ?_
+      · have := h.queue
+        simp only [starts] at this
+        simp [List.filter_append, hpc, this]
+      · intro x hx
+        rcases List.mem_append.1 hx with hx | hx
+        · exact h.ready_lt x hx
+        · have : x = u := by simpa using hx
+          subst this
+          apply Decidable.byContradiction
+          intro hn
+          have := h.pcs_none x (by omega)
+          rw [this] at hpc; cases hpc
   · exact h
 
+theorem rinv_drop (nf : Nat) (s : St) (m t : Nat) (rest : List Nat) (h : RInv nf s m) (hr : s.ready = t :: rest)
+    (hns : s.pcs t ≠ some .start)
+    (hnw : ∀ k, s.pcs t = some (.awaiting k) → ∀ v, s.futs (t, k) ≠ .done v) :
+    RInv nf { s with ready := rest } m :=
+  { pos := h.pos, mle := h.mle, pcs_none := h.pcs_none, pcs_some := h.pcs_some
+    ready_lt := fun u hu => h.ready_lt u (by rw [hr]; exact List.mem_cons_of_mem _ hu)
+    started := h.started
+    queue := by
+      have := h.queue
+      simp only [starts, hr, List.filter_cons] at this
+      have hb : (s.pcs t == some Pc.start) = false := by simpa using hns
+      simp only [hb, Bool.false_eq_true, ↓reduceIte] at this
+      exact this
+    current := h.current, waiter := h.waiter
+    waiting := by
+      intro u j hp
+      obtain ⟨a, b⟩ := h.waiting u j hp
+      refine ⟨a, ?_⟩
+      rcases b with b | ⟨⟨v, b⟩, c⟩
+      · exact Or.inl b
+      · right
+        refine ⟨⟨v, b⟩, ?_⟩
+        rw [hr] at c
+        rcases List.mem_cons.1 c with c | c
+        · subst c; exact absurd b (hnw j hp v)
+        · exact c
+    held := h.held, unheld := h.unheld, prog := h.prog, value := h.value, hold_lt := h.hold_lt }
 
-theorem rinv_stepReady (s : St) (m : Nat) (h : RInv s m) : ∃ m', RInv (stepReady s) m' := by
+theorem rinv_stepReady (nf : Nat) (s : St) (m : Nat) (h : RInv nf s m) : ∃ m', RInv nf (stepReady nf s) m' := by
   unfold stepReady
   split
   · exact ⟨m, h⟩
   · rename_i t rest hr
     have hlt : t < s.nTasks := h.ready_lt t (by rw [hr]; simp)
     have hmle := h.mle
+    have hrest : ∀ u, u ∈ s.ready → u ≠ t → u ∈ rest := by
+      intro u hu hne
+      rw [hr] at hu
+      rcases List.mem_cons.1 hu with e | e
+      · exact absurd e hne
+      · exact e
     simp only []
-    -- dropping the head when it is not a start entry keeps the start entries
-    have hdrop : s.pcs t ≠ some .start → starts { s with ready := rest } = List.range' m (s.nTasks - m) := by
-      intro hne
-      have := h.queue
-      simp only [starts, hr, List.filter_cons] at this
-      have hb : (s.pcs t == some Pc.start) = false := by simpa using hne
-      simp only [hb, Bool.false_eq_true, ↓reduceIte] at this
-      exact this
-    have hrest : ∀ u, u ∈ rest → u ∈ s.ready := by intro u hu; rw [hr]; exact List.mem_cons_of_mem _ hu
     cases hpc : s.pcs t with
     | none => exact absurd hpc (h.pcs_some t hlt)
     | some pc =>
@@ -163,140 +399,127 @@ theorem rinv_stepReady (s : St) (m : Nat) (h : RInv s m) : ∃ m', RInv (stepRea
         -- the head start entry is the oldest task that has not started
         have hq := h.queue
         simp only [starts, hr, List.filter_cons, hpc, beq_self_eq_true, ↓reduceIte] at hq
-        have hpos : 0 < s.nTasks - m := by
+        obtain ⟨k0, hk0⟩ : ∃ k0, s.nTasks - m = k0 + 1 := by
           cases hk : s.nTasks - m with
           | zero => rw [hk] at hq; simp [List.range'] at hq
-          | succ k => omega
-        obtain ⟨k, hk⟩ : ∃ k, s.nTasks - m = k + 1 := ⟨s.nTasks - m - 1, by omega⟩
-        rw [hk, List.range'_succ] at hq
+          | succ k0 => exact ⟨k0, rfl⟩
+        rw [hk0, List.range'_succ] at hq
         have htm : t = m := (List.cons.inj hq).1
         have hq' := (List.cons.inj hq).2
         subst htm
-        have hk' : k = s.nTasks - (t + 1) := by omega
-        have hstarts : ∀ X : Option Pc, X ≠ some .start →
-            List.filter (fun u => upd s.pcs t X u == some Pc.start) rest = List.range' (t + 1) (s.nTasks - (t + 1)) := by
-          intro X hX
-          rw [filter_upd _ _ _ hX, hq', filter_ne_range' _ _ _ (by omega), hk']
+        have hk' : k0 = s.nTasks - (t + 1) := by omega
         refine ⟨t + 1, ?_⟩
-        cases hf : s.futs t with
-        | done v =>
-          simp only [apply, ↓reduceIte]
-          exact
-          { pos := h.pos
-            mle := by simp only []; omega
-            pcs_none := by have := h.pcs_none; simp only []; rgr
-            pcs_some := by have := h.pcs_some; simp only []; rgr
-            ready_lt := by have := h.ready_lt; simp only []; rgr
-            started := by have := h.started; simp only []; rgr
-            queue := by simp only [starts]; exact hstarts _ (by simp)
-            current := by simp
-            fresh := by have := h.fresh; simp only []; rgr
-            waiting := by have := h.waiting; have := h.started; simp only []; rgr
-            waiter := by have := h.waiter; simp only []; rgr
-            fin := by have := h.fin; simp only []; rgr
-            value := by simp [upd, hf]
-            held := by have := h.held; have := h.current; have := h.started; simp only [applyEvent, spawn]; rgr
-            unheld := by have := h.unheld; have := h.current; simp only [applyEvent, spawn]; rgr
-            last_holder := by have := h.last_holder; have := h.current; have := h.started; simp only [applyEvent, spawn]; rgr }
-        | pending w =>
-          simp only []
-          exact
-          { pos := h.pos
-            mle := by simp only []; omega
-            pcs_none := by have := h.pcs_none; simp only []; rgr
-            pcs_some := by have := h.pcs_some; simp only []; rgr
-            ready_lt := by have := h.ready_lt; simp only []; rgr
-            started := by have := h.started; simp only []; rgr
-            queue := by simp only [starts]; exact hstarts _ (by simp)
-            current := by simp
-            fresh := by have := h.fresh; simp only []; rgr
-            waiting := by have := h.waiting; have := h.started; simp only []; rgr
-            waiter := by have := h.waiter; simp only []; rgr
-            fin := by have := h.fin; simp only []; rgr
-            value := by simp [upd]
-            held := by have := h.held; have := h.current; have := h.started; simp only [applyEvent, spawn]; rgr
-            unheld := by have := h.unheld; have := h.current; simp only [applyEvent, spawn]; rgr
-            last_holder := by have := h.last_holder; have := h.current; have := h.started; simp only [applyEvent, spawn]; rgr }
-      | awaiting =>
+        apply rinv_loop nf t (t + 1) nf _ (Nat.le_refl _)
+        rw [Nat.sub_self]
+        exact
+        { pos := h.pos, mle := by simp only []; omega, tlt := by omega, kle := Nat.zero_le _
+          pcs_none := h.pcs_none, pcs_some := h.pcs_some
+          ready_lt := fun u hu => h.ready_lt u (by rw [hr]; exact List.mem_cons_of_mem _ hu)
+          started := by
+            have := h.started; simp only []
+            intro u hu hne
+            rw [this u hu]; omega
+          queue := by
+            simp only []
+            rw [hq', filter_ne_range' _ _ _ (by omega), hk']
+          current := by simp
+          waiter := by
+            have := h.waiter; simp only []
+            intro u j w hw
+            obtain ⟨a, b⟩ := this u j w hw
+            refine ⟨a, ?_, b⟩
+            intro e; subst e; rw [hpc] at b; cases b
+          waiting := by
+            simp only []
+            intro u j hne hp
+            obtain ⟨a, b⟩ := h.waiting u j hp
+            refine ⟨a, ?_⟩
+            rcases b with b | ⟨b, c⟩
+            · exact Or.inl b
+            · exact Or.inr ⟨b, hrest u c hne⟩
+          held := by
+            have := h.held; simp only []
+            intro u j hh
+            obtain ⟨a, b⟩ := this u j hh
+            exact ⟨by omega, b⟩
+          unheld := h.unheld
+          prog := by intro e; simp at e
+          value := by intro e; simp at e
+          runprog := by intro _ e; cases e
+          hold_lt := fun u j i _ => h.hold_lt u j i
+          runlt := by
+            intro j hh
+            have := (h.held t j hh).1
+            omega }
+      | awaiting k =>
         simp only []
+        have hw := h.waiting t k hpc
         have htm : t < m := by
           apply Decidable.byContradiction
           intro hn
           have := (h.started t hlt).2 (by omega)
           rw [hpc] at this; cases this
-        cases hf : s.futs t with
+        cases hf : s.futs (t, k) with
         | done v =>
           simp only []
-          have hq2 : List.filter (fun u => upd s.pcs t (some Pc.finished) u == some Pc.start) rest =
-              List.range' m (s.nTasks - m) := by
-            rw [filter_upd _ _ _ (by simp)]
-            have := hdrop (by rw [hpc]; simp)
-            simp only [starts] at this
-            rw [this, filter_ne_range' _ _ _ htm]
           refine ⟨m, ?_⟩
-          unfold apply
-          split
-          · rename_i hc
-            simp only [] at hc
-            exact
-            { pos := h.pos, mle := h.mle
-              pcs_none := by have := h.pcs_none; simp only []; rgr
-              pcs_some := by have := h.pcs_some; simp only []; rgr
-              ready_lt := by have := h.ready_lt; simp only []; rgr
-              started := by have := h.started; simp only []; rgr
-              queue := by simp only [starts]; exact hq2
-              current := h.current
-              fresh := by have := h.fresh; simp only []; rgr
-              waiting := by have := h.waiting; simp only []; rgr
-              waiter := by have := h.waiter; simp only []; rgr
-              fin := by have := h.fin; simp only []; rgr
-              value := by have := h.current; simp only []; rgr
-              held := by have := h.held; have := h.current; have := h.started; simp only [applyEvent, spawn]; rgr
-              unheld := by have := h.unheld; have := h.current; simp only [applyEvent, spawn]; rgr
-              last_holder := by have := h.last_holder; have := h.current; have := h.started; simp only [applyEvent, spawn]; rgr }
-          · rename_i hc
-            simp only [] at hc
-            exact
-            { pos := h.pos, mle := h.mle
-              pcs_none := by have := h.pcs_none; simp only []; rgr
-              pcs_some := by have := h.pcs_some; simp only []; rgr
-              ready_lt := by have := h.ready_lt; simp only []; rgr
-              started := by have := h.started; simp only []; rgr
-              queue := by simp only [starts]; exact hq2
-              current := h.current
-              fresh := by have := h.fresh; simp only []; rgr
-              waiting := by have := h.waiting; simp only []; rgr
-              waiter := by have := h.waiter; simp only []; rgr
-              fin := by have := h.fin; simp only []; rgr
-              value := by have := h.current; have := h.value; simp only []; rgr
-              held := by have := h.held; have := h.current; have := h.started; simp only [applyEvent, spawn]; rgr
-              unheld := by have := h.unheld; have := h.current; simp only [applyEvent, spawn]; rgr
-              last_holder := by have := h.last_holder; have := h.current; have := h.started; simp only [applyEvent, spawn]; rgr }
+          apply rinv_loop nf t m (nf - k) _ (by omega)
+          have hkk : nf - (nf - k) = k := by have := hw.1; omega
+          rw [hkk]
+          exact
+          { pos := h.pos, mle := h.mle, tlt := htm, kle := by have := hw.1; omega
+            pcs_none := h.pcs_none, pcs_some := h.pcs_some
+            ready_lt := fun u hu => h.ready_lt u (by rw [hr]; exact List.mem_cons_of_mem _ hu)
+            started := fun u hu _ => h.started u hu
+            queue := by
+              have := h.queue
+              simp only [starts, hr, List.filter_cons, hpc] at this
+              simp only [] at this ⊢
+              have hb : ((some (Pc.awaiting k) : Option Pc) == some Pc.start) = false := by simp
+              simp only [hb, Bool.false_eq_true, ↓reduceIte] at this
+              rw [this, filter_ne_range' _ _ _ htm]
+            current := by
+              have := h.current
+              simp only []
+              rw [this]; split
+              · omega
+              · rfl
+            waiter := by
+              have := h.waiter; simp only []
+              intro u j w hw'
+              obtain ⟨a, b⟩ := this u j w hw'
+              refine ⟨a, ?_, b⟩
+              intro e; subst e
+              rw [hpc] at b; cases b
+              rw [hf] at hw'; cases hw'
+            waiting := by
+              simp only []
+              intro u j hne hp
+              obtain ⟨a, b⟩ := h.waiting u j hp
+              refine ⟨a, ?_⟩
+              rcases b with b | ⟨b, c⟩
+              · exact Or.inl b
+              · exact Or.inr ⟨b, hrest u c hne⟩
+            held := h.held, unheld := h.unheld
+            prog := fun _ => h.prog (by omega)
+            value := fun _ => h.value (by omega)
+            runprog := by
+              intro e hk
+              rw [e]
+              exact h.prog (by omega) k (by rw [← e]; exact hpc) hk
+            hold_lt := fun u j i _ => h.hold_lt u j i
+            runlt := fun j hh => h.hold_lt t j k hh hpc }
         | pending w =>
           simp only []
-          refine ⟨m, ?_⟩
-          exact
-          { pos := h.pos, mle := h.mle, pcs_none := h.pcs_none, pcs_some := h.pcs_some
-            ready_lt := by have := h.ready_lt; simp only []; rgr
-            started := h.started
-            queue := hdrop (by rw [hpc]; simp)
-            current := h.current, fresh := h.fresh
-            waiting := by have := h.waiting; simp only []; rgr
-            waiter := h.waiter, fin := h.fin, value := h.value, held := h.held, unheld := h.unheld, last_holder := h.last_holder }
+          exact ⟨m, rinv_drop nf s m t rest h hr (by rw [hpc]; simp) (by
+            intro j hj v hv
+            rw [hpc] at hj; cases hj
+            rw [hf] at hv; cases hv)⟩
       | finished =>
         simp only []
-        refine ⟨m, ?_⟩
-        exact
-        { pos := h.pos, mle := h.mle, pcs_none := h.pcs_none, pcs_some := h.pcs_some
-          ready_lt := by have := h.ready_lt; simp only []; rgr
-          started := h.started
-          queue := hdrop (by rw [hpc]; simp)
-          current := h.current, fresh := h.fresh
-          waiting := by have := h.waiting; simp only []; rgr
-          waiter := h.waiter, fin := h.fin, value := h.value, held := h.held, unheld := h.unheld, last_holder := h.last_holder }
+        exact ⟨m, rinv_drop nf s m t rest h hr (by rw [hpc]; simp) (by intro j hj; rw [hpc] at hj; cases hj)⟩
 
-
-theorem rinv_drain (n : Nat) : ∀ s m, RInv s m → ∃ m', RInv (drain n s) m' := by
+theorem rinv_drain (nf : Nat) (n : Nat) : ∀ s m, RInv nf s m → ∃ m', RInv nf (drain nf n s) m' := by
   induction n with
   | zero => intro s m h; exact ⟨m, h⟩
   | succ n ih =>
@@ -304,29 +527,33 @@ theorem rinv_drain (n : Nat) : ∀ s m, RInv s m → ∃ m', RInv (drain n s) m'
     simp only [drain]
     split
     · exact ⟨m, h⟩
-    · obtain ⟨m1, h1⟩ := rinv_stepReady s m h
+    · obtain ⟨m1, h1⟩ := rinv_stepReady nf s m h
       exact ih _ m1 h1
 
-theorem rinv_applyEvent (s : St) (m : Nat) (ev : Event) (h : RInv s m) : ∃ m', RInv (applyEvent s ev) m' := by
+theorem rinv_applyEvent (nf : Nat) (s : St) (m : Nat) (ev : Event) (h : RInv nf s m) :
+    ∃ m', RInv nf (applyEvent nf s ev) m' := by
   cases ev with
-  | set r => exact ⟨m, rinv_set s m r h⟩
-  | tick => exact rinv_drain _ s m h
-  | complete t r => exact ⟨m, rinv_complete s m t r h⟩
+  | set => exact ⟨m, rinv_set nf s m h⟩
+  | tick => exact rinv_drain nf _ s m h
+  | complete t k r => exact ⟨m, rinv_complete nf s m t k r h⟩
 
-theorem rinv_run (evs : List Event) : ∃ m, RInv (run evs) m := by
+theorem rinv_run (nf : Nat) (evs : List Event) : ∃ m, RInv nf (run nf evs) m := by
   unfold run
-  suffices ∀ s m, RInv s m → ∃ m', RInv (evs.foldl applyEvent s) m' from this _ 0 rinv_init
+  suffices ∀ s m, RInv nf s m → ∃ m', RInv nf (evs.foldl (applyEvent nf) s) m' from this _ 0 (rinv_init nf)
   induction evs with
   | nil => intro s m h; exact ⟨m, h⟩
   | cons ev rest ih =>
     intro s m h
-    obtain ⟨m1, h1⟩ := rinv_applyEvent s m ev h
+    obtain ⟨m1, h1⟩ := rinv_applyEvent nf s m ev h
     exact ih _ m1 h1
 
-/-- latest wins, on a state satisfying the invariant: it is enough that the queue is empty and the
-MOST RECENT evaluation has completed (older ones may still be pending) -/
-theorem rinv_latest_wins (s : St) (m : Nat) (h : RInv s m) (hq : s.ready = []) (v : Int)
-    (hd : s.futs (s.nTasks - 1) = .done v) : s.cur = some v ∧ s.holder = some (s.nTasks - 1) := by
+/-! ### consequences -/
+
+/-- latest wins, on a state satisfying the invariant: the queue is empty and every awaitable of the
+MOST RECENT evaluation has completed (older evaluations may still be pending) -/
+theorem rinv_latest_wins (nf : Nat) (s : St) (m : Nat) (h : RInv nf s m) (hq : s.ready = []) (hn : 0 < nf)
+    (hd : ∀ k, k < nf → ∃ v, s.futs (s.nTasks - 1, k) = .done v) :
+    s.holder = some (s.nTasks - 1, nf - 1) ∧ ∃ v, s.futs (s.nTasks - 1, nf - 1) = .done v ∧ s.cur = some v := by
   have hpos := h.pos
   have hm : m = s.nTasks := by
     have := h.queue
@@ -344,62 +571,226 @@ theorem rinv_latest_wins (s : St) (m : Nat) (h : RInv s m) (hq : s.ready = []) (
       cases pc with
       | finished => rfl
       | start => have := (h.started _ hlast).1 hp; omega
-      | awaiting =>
-        rcases h.waiting _ hp with hw | ⟨_, hw⟩
-        · rw [hd] at hw; cases hw
+      | awaiting k =>
+        obtain ⟨hk, hw⟩ := h.waiting _ k hp
+        rcases hw with hw | ⟨_, hw⟩
+        · obtain ⟨v, hv⟩ := hd k hk; rw [hv] at hw; cases hw
         · rw [hq] at hw; cases hw
-  obtain ⟨v', hv, hc⟩ := h.value hpos hfin
-  rw [hd] at hv; cases hv
-  refine ⟨hc, ?_⟩
-  exact h.last_holder hpos hfin
+  have hh := h.value hpos hfin hn
+  exact ⟨hh, (h.held _ _ hh).2⟩
 
-/-- the evaluation whose result is held never goes back -/
-def HLe (a b : Option Nat) : Prop := ∀ t, a = some t → ∃ t', b = some t' ∧ t ≤ t'
+/-- order of the awaitables: older evaluation first, then earlier yield -/
+def fle (a b : Fid) : Prop := a.1 < b.1 ∨ (a.1 = b.1 ∧ a.2 ≤ b.2)
 
-theorem HLe.refl (a : Option Nat) : HLe a a := fun t h => ⟨t, h, Nat.le_refl _⟩
-theorem HLe.trans {a b d : Option Nat} (h1 : HLe a b) (h2 : HLe b d) : HLe a d := by
-  intro t ht
-  obtain ⟨t1, e1, l1⟩ := h1 t ht
-  obtain ⟨t2, e2, l2⟩ := h2 t1 e1
-  exact ⟨t2, e2, Nat.le_trans l1 l2⟩
+/-- the awaitable whose result is held never goes back -/
+def HLe (a b : Option Fid) : Prop := ∀ f, a = some f → ∃ f', b = some f' ∧ fle f f'
 
-theorem holder_stepReady (s : St) (m : Nat) (h : RInv s m) : HLe s.holder (stepReady s).holder := by
-  have hh := h.held
-  have hc := h.current
-  have hs := h.started
-  have hl := h.ready_lt
+theorem HLe.refl (a : Option Fid) : HLe a a := fun f h => ⟨f, h, Or.inr ⟨rfl, Nat.le_refl _⟩⟩
+theorem HLe.trans {a b d : Option Fid} (h1 : HLe a b) (h2 : HLe b d) : HLe a d := by
+  intro f hf
+  obtain ⟨f1, e1, l1⟩ := h1 f hf
+  obtain ⟨f2, e2, l2⟩ := h2 f1 e1
+  refine ⟨f2, e2, ?_⟩
+  unfold fle at *
+  omega
+
+theorem holder_loop (nf t m : Nat) : ∀ (r : Nat) (s : St), r ≤ nf → RMid nf s m t (nf - r) →
+    HLe s.holder (rxLoop t nf r s).holder := by
+  intro r
+  induction r with
+  | zero => intro s _ _; exact HLe.refl _
+  | succ r ih =>
+    intro s hr h
+    simp only [rxLoop]
+    cases hf : s.futs (t, nf - (r + 1)) with
+    | done v =>
+      simp only []
+      split
+      · rename_i hc
+        have htm : t = m - 1 := by have := h.current; rw [this] at hc; cases hc; rfl
+        have hk : nf - r = nf - (r + 1) + 1 := by omega
+        have hmid : RMid nf { s with cur := some v, log := s.log ++ [some v], holder := some (t, nf - (r + 1)) } m t
+            (nf - r) :=
+          { pos := h.pos, mle := h.mle, tlt := h.tlt, kle := by omega
+            pcs_none := h.pcs_none, pcs_some := h.pcs_some, ready_lt := h.ready_lt, started := h.started
+            queue := h.queue, current := h.current, waiter := h.waiter, waiting := h.waiting
+            held := by
+              simp only []
+              intro u j hh
+              cases hh
+              exact ⟨h.tlt, v, hf, rfl⟩
+            unheld := by simp
+            prog := fun e => absurd htm.symm e
+            value := fun e => absurd htm.symm e
+            runprog := by intro _ _; simp only []; rw [hk]; simp
+            hold_lt := by simp only []; intro u j i hne hh hp; cases hh; exact absurd rfl hne
+            runlt := by simp only []; intro j hh; cases hh; omega }
+        refine HLe.trans ?_ (ih _ (by omega) hmid)
+        intro f hfh
+        refine ⟨_, rfl, ?_⟩
+        obtain ⟨u, j⟩ := f
+        have hu := (h.held u j hfh).1
+        by_cases e : u = t
+        · subst e
+          have := h.runlt j hfh
+          exact Or.inr ⟨rfl, by simp only []; omega⟩
+        · exact Or.inl (by simp only []; omega)
+      · exact HLe.refl _
+    | pending w => exact HLe.refl _
+
+/-- entry into the loop at the start of a task -/
+theorem rmid_start (nf : Nat) (s : St) (m t : Nat) (rest : List Nat) (h : RInv nf s m) (hr : s.ready = t :: rest)
+    (hpc : s.pcs t = some .start) : t = m ∧ RMid nf { s with ready := rest, currentTask := some t } (t + 1) t 0 := by
+  have hlt : t < s.nTasks := h.ready_lt t (by rw [hr]; simp)
+  have hmle := h.mle
+  have hrest : ∀ u, u ∈ s.ready → u ≠ t → u ∈ rest := by
+    intro u hu hne
+    rw [hr] at hu
+    rcases List.mem_cons.1 hu with e | e
+    · exact absurd e hne
+    · exact e
+        -- the head start entry is the oldest task that has not started
+  have hq := h.queue
+  simp only [starts, hr, List.filter_cons, hpc, beq_self_eq_true, ↓reduceIte] at hq
+  obtain ⟨k0, hk0⟩ : ∃ k0, s.nTasks - m = k0 + 1 := by
+    cases hk : s.nTasks - m with
+    | zero => rw [hk] at hq; simp [List.range'] at hq
+    | succ k0 => exact ⟨k0, rfl⟩
+  rw [hk0, List.range'_succ] at hq
+  have htm : t = m := (List.cons.inj hq).1
+  have hq' := (List.cons.inj hq).2
+  subst htm
+  have hk' : k0 = s.nTasks - (t + 1) := by omega
+  refine ⟨rfl, ?_⟩
+  exact
+  { pos := h.pos, mle := by simp only []; omega, tlt := by omega, kle := Nat.zero_le _
+    pcs_none := h.pcs_none, pcs_some := h.pcs_some
+    ready_lt := fun u hu => h.ready_lt u (by rw [hr]; exact List.mem_cons_of_mem _ hu)
+    started := by
+      have := h.started; simp only []
+      intro u hu hne
+      rw [this u hu]; omega
+    queue := by
+      simp only []
+      rw [hq', filter_ne_range' _ _ _ (by omega), hk']
+    current := by simp
+    waiter := by
+      have := h.waiter; simp only []
+      intro u j w hw
+      obtain ⟨a, b⟩ := this u j w hw
+      refine ⟨a, ?_, b⟩
+      intro e; subst e; rw [hpc] at b; cases b
+    waiting := by
+      simp only []
+      intro u j hne hp
+      obtain ⟨a, b⟩ := h.waiting u j hp
+      refine ⟨a, ?_⟩
+      rcases b with b | ⟨b, c⟩
+      · exact Or.inl b
+      · exact Or.inr ⟨b, hrest u c hne⟩
+    held := by
+      have := h.held; simp only []
+      intro u j hh
+      obtain ⟨a, b⟩ := this u j hh
+      exact ⟨by omega, b⟩
+    unheld := h.unheld
+    prog := by intro e; simp at e
+    value := by intro e; simp at e
+    runprog := by intro _ e; cases e
+    hold_lt := fun u j i _ => h.hold_lt u j i
+    runlt := by
+      intro j hh
+      have := (h.held t j hh).1
+      omega }
+
+/-- entry into the loop at the wake-up of a task whose awaited future is done -/
+theorem rmid_wake (nf : Nat) (s : St) (m t k : Nat) (v : Int) (rest : List Nat) (h : RInv nf s m)
+    (hr : s.ready = t :: rest) (hpc : s.pcs t = some (.awaiting k)) (hf : s.futs (t, k) = .done v) :
+    RMid nf { s with ready := rest } m t k := by
+  have hlt : t < s.nTasks := h.ready_lt t (by rw [hr]; simp)
+  have hrest : ∀ u, u ∈ s.ready → u ≠ t → u ∈ rest := by
+    intro u hu hne
+    rw [hr] at hu
+    rcases List.mem_cons.1 hu with e | e
+    · exact absurd e hne
+    · exact e
+  have hw := h.waiting t k hpc
+  have htm : t < m := by
+    apply Decidable.byContradiction
+    intro hn
+    have := (h.started t hlt).2 (by omega)
+    rw [hpc] at this; cases this
+  exact
+  { pos := h.pos, mle := h.mle, tlt := htm, kle := by have := hw.1; omega
+    pcs_none := h.pcs_none, pcs_some := h.pcs_some
+    ready_lt := fun u hu => h.ready_lt u (by rw [hr]; exact List.mem_cons_of_mem _ hu)
+    started := fun u hu _ => h.started u hu
+    queue := by
+      have := h.queue
+      simp only [starts, hr, List.filter_cons, hpc] at this
+      simp only [] at this ⊢
+      have hb : ((some (Pc.awaiting k) : Option Pc) == some Pc.start) = false := by simp
+      simp only [hb, Bool.false_eq_true, ↓reduceIte] at this
+      rw [this, filter_ne_range' _ _ _ htm]
+    current := by
+      have := h.current
+      simp only []
+      rw [this]; split
+      · omega
+      · rfl
+    waiter := by
+      have := h.waiter; simp only []
+      intro u j w hw'
+      obtain ⟨a, b⟩ := this u j w hw'
+      refine ⟨a, ?_, b⟩
+      intro e; subst e
+      rw [hpc] at b; cases b
+      rw [hf] at hw'; cases hw'
+    waiting := by
+      simp only []
+      intro u j hne hp
+      obtain ⟨a, b⟩ := h.waiting u j hp
+      refine ⟨a, ?_⟩
+      rcases b with b | ⟨b, c⟩
+      · exact Or.inl b
+      · exact Or.inr ⟨b, hrest u c hne⟩
+    held := h.held, unheld := h.unheld
+    prog := fun _ => h.prog (by omega)
+    value := fun _ => h.value (by omega)
+    runprog := by
+      intro e hk
+      rw [e]
+      exact h.prog (by omega) k (by rw [← e]; exact hpc) hk
+    hold_lt := fun u j i _ => h.hold_lt u j i
+    runlt := fun j hh => h.hold_lt t j k hh hpc }
+
+theorem holder_stepReady (nf : Nat) (s : St) (m : Nat) (h : RInv nf s m) : HLe s.holder (stepReady nf s).holder := by
   unfold stepReady
   split
   · exact HLe.refl _
   · rename_i t rest hr
-    have hlt : t < s.nTasks := hl t (by rw [hr]; simp)
     simp only []
-    split
-    · rename_i hpc
-      have hmt : m ≤ t := (hs t hlt).1 hpc
-      split
-      · simp only [apply, ↓reduceIte]
-        intro t0 h0
-        exact ⟨t, rfl, by have := (hh t0 h0).1; omega⟩
-      · exact HLe.refl _
-    · rename_i hpc
-      split
-      · unfold apply
+    cases hpc : s.pcs t with
+    | none => exact HLe.refl _
+    | some pc =>
+      cases pc with
+      | start =>
         simp only []
-        split
-        · rename_i hcur
-          intro t0 h0
-          refine ⟨t, rfl, ?_⟩
-          have := (hh t0 h0).1
-          simp only [hc] at hcur
-          split at hcur
-          · cases hcur
-          · cases hcur; omega
-        · exact HLe.refl _
-      · exact HLe.refl _
-    · exact HLe.refl _
+        have := (rmid_start nf s m t rest h hr hpc).2
+        exact holder_loop nf t (t + 1) nf _ (Nat.le_refl _) (by rw [Nat.sub_self]; exact this)
+      | awaiting k =>
+        simp only []
+        cases hf : s.futs (t, k) with
+        | done v =>
+          simp only []
+          have hmid := rmid_wake nf s m t k v rest h hr hpc hf
+          have hk := (h.waiting t k hpc).1
+          have hkk : nf - (nf - k) = k := by omega
+          exact holder_loop nf t m (nf - k) _ (by omega) (by rw [hkk]; exact hmid)
+        | pending w => exact HLe.refl _
+      | finished => exact HLe.refl _
 
-theorem holder_drain (n : Nat) : ∀ s m, RInv s m → HLe s.holder (drain n s).holder := by
+theorem holder_drain (nf n : Nat) : ∀ s m, RInv nf s m → HLe s.holder (drain nf n s).holder := by
   induction n with
   | zero => intro s m _; exact HLe.refl _
   | succ n ih =>
@@ -407,14 +798,15 @@ theorem holder_drain (n : Nat) : ∀ s m, RInv s m → HLe s.holder (drain n s).
     simp only [drain]
     split
     · exact HLe.refl _
-    · obtain ⟨m1, h1⟩ := rinv_stepReady s m h
-      exact (holder_stepReady s m h).trans (ih _ m1 h1)
+    · obtain ⟨m1, h1⟩ := rinv_stepReady nf s m h
+      exact (holder_stepReady nf s m h).trans (ih _ m1 h1)
 
-theorem holder_applyEvent (s : St) (m : Nat) (ev : Event) (h : RInv s m) : HLe s.holder (applyEvent s ev).holder := by
+theorem holder_applyEvent (nf : Nat) (s : St) (m : Nat) (ev : Event) (h : RInv nf s m) :
+    HLe s.holder (applyEvent nf s ev).holder := by
   cases ev with
-  | set r => exact HLe.refl _
-  | tick => exact holder_drain _ s m h
-  | complete t r =>
+  | set => exact HLe.refl _
+  | tick => exact holder_drain nf _ s m h
+  | complete t k r =>
     simp only [applyEvent]
     split
     · split <;> exact HLe.refl _
